@@ -22,7 +22,7 @@ def main():
     ck.bounds = dict(E1='all doubles t in [1e-4,1] x sizes in the size set (sampled per seed in the quick tier)',
                      pair='filter_pair on two cells of 1..%d tokens, symbolic threshold, all token arrangements' % kp,
                      tables='_filter_tables_split 1x2 rows of 1..3 tokens, arbitrary global order, thresholds grid')
-    ck.outside += ['edit-distance measure (q-gram strings): see C03', 'rows beyond the bounds',
+    ck.outside += ['edit-distance strings longer than 3 characters', 'rows beyond the bounds',
                    'structural sufficiency of K for set sizes above the E2 bound']
     e1_stage.run_contract(ck, ck.tier, max_obligations=90 if quick else None,
                           always=('pl', 'mono') if quick else ('pl',))
@@ -52,6 +52,15 @@ def main():
     ck.e2('tables-OverlapFilter', h_core.make(dict(entry='filter_split', filter='OverlapFilter',
                                                    measure='OVERLAP', nl=1, nr=2, k=3, thresholds=[1, 2],
                                                    comp_ops=['>='], props=P)))
+    # EDIT_DISTANCE measure: real q-gram tokenizer on symbolic strings, real integer kernel
+    from harness import h_ed
+    for flt in ('SizeFilter', 'PrefixFilter', 'PositionFilter', 'SuffixFilter'):
+        ck.e2('ed-pair-%s' % flt, h_ed.make(dict(entry='filter_pair', filter=flt, lens=[1, 2] if quick else [0, 1, 2, 3],
+                                                 q=[2], padding=[True], taus=[1] if quick else [0, 1, 2], props=P)),
+              bounds=dict(strings='len <= %d' % (2 if quick else 3), q=2))
+        ck.e2('ed-tables-%s' % flt, h_ed.make(dict(entry='filter_split', filter=flt, nl=1, nr=2, lens_l=[2],
+                                                   lens_r=[1] if quick else [1, 2], q=[2], padding=[True], taus=[1],
+                                                   props=P)), bounds=dict(rows='1x2', q=2))
     ck.finish()
 
 
